@@ -118,6 +118,8 @@ pub fn gen(seed: u64, tier: &str) -> Vec<Value> {
         if rng.gen_bool(0.3) {
             let msg = ["", "denied", "nö %", "a b", "%", "%41", "path 'a%2Fb' (saw %41)", "100% sure", "%zz %4", "tab\there", "x%25y"][rng.gen_range(0..11)];
             let dl = rng.gen_range(0..5);
+            // one rejecting status in twelve carries details of several kilobytes
+            let dl = if rng.gen_range(0..12) == 0 { [6145usize, 9000, 20000][rng.gen_range(0..3)] } else { dl };
             let mut meta = crate::labs::status::rand_meta(&mut rng);
             // a third of the rejecting statuses carry, in their metadata, an entry named like the details header (metadata copied from
             // some upstream response): the status's own details must still be the ones the caller receives
